@@ -97,19 +97,20 @@ def consistent (h : Nat) (atoms : List String) (T : Trace) : Bool :=
 
 /-! ### Executable enumeration over a finite atom list -/
 
-/-- interpretation from a bit mask over `atoms × (0..h)` -/
+/-- position of an atom in the atom list -/
+def idxIn : List String → String → Option Nat
+  | [], _ => none
+  | x :: xs, a => if x == a then some 0 else (idxIn xs a).map (· + 1)
+
+/-- interpretation from a bit mask over `atoms × (0..h)`: bit `k * |atoms| + i` is atom `i` at state `k` -/
 def maskTrace (atoms : List String) (m : Nat) : Trace :=
-  fun k a => match atoms.idxOf? a with
+  fun k a => match idxIn atoms a with
     | some i => m.testBit (k * atoms.length + i)
     | none => false
 
-/-- the values `2^i` of the bits set in `m`, below `nbits` -/
-def bitsOf (m nbits : Nat) : List Nat :=
-  (List.range nbits).filterMap fun i => if m.testBit i then some (2 ^ i) else none
-
-/-- all sub-masks of `m` (sums of subsets of its bits), `m` itself excluded -/
-def subMasks (m : Nat) (nbits : Nat) : List Nat :=
-  ((bitsOf m nbits).foldl (fun acc b => acc ++ acc.map (· + b)) [0]).filter (· != m)
+/-- all sub-masks of `m` (every bit of `s` is a bit of `m`), `m` itself excluded -/
+def subMasks (m : Nat) (_nbits : Nat) : List Nat :=
+  (List.range m).filter fun s => s &&& m == s
 
 def isTSM (h : Nat) (atoms : List String) (P : TProg) (m : Nat) : Bool :=
   let T := maskTrace atoms m
